@@ -662,7 +662,7 @@ def run_readers(rnd, out, repo, nreads=6):
                 for c, m, amb in dr.compare_signals(got, zn, False, "%s.read(%d, %d, use_dask, chunks=%r)" % (name, off, n, chunks)):
                     out.viol.append(("%s:reader" % c, m))
         for name, r in readers:
-            concurrent_reads(r, name, rnd, out, reps=8 if nreads > 4 else 4)
+            concurrent_reads(r, name, rnd, out, reps=10 if nreads > 4 else 6, nread=8)
         concurrent_reads(CountingReader((4000, 3), np.float64, sample_rate=1 * u.MHz), "CountingReader", rnd, out, reps=2)
         concurrent_reads(dr.SpanReader(shape=(4000, 2), dtype=np.complex64, signal_type=pb.BasebandSignal, sample_rate=1 * u.MHz,
                                        center_freq=1 * u.GHz), "SpanReader", rnd, out, reps=2)
